@@ -386,6 +386,12 @@ fn run_suite<S: ShortGroupSignatureScheme>(v: &Value, ps: bool) -> Value {
                 msgs[i] = rep_claims[i].to_scalar();
             }
         }
+        if id == target && devk == "swap_disclosed_everywhere" && disc_idx.len() >= 2 {
+            // the values of two disclosed claims exchanged, consistently in map, proof scalars and Schnorr relation
+            let (a, b) = (disc_idx[0], disc_idx[1]);
+            rep_claims.swap(a, b);
+            msgs.swap(a, b);
+        }
         let sig = if id == target && devk == "other_issuer_sig" && creds.len() > 1 {
             // signature of another credential (other claim vector / other issuer)
             creds[(ci + 1) % creds.len()].sig.clone()
